@@ -1,8 +1,12 @@
 package syncx
 
 import (
+	"errors"
 	"sync"
 )
+
+// errCallAborted 是共享的调用没有正常返回（panic 或 runtime.Goexit）时，等待者得到的错误。
+var errCallAborted = errors.New("syncx: 共享的调用未正常返回")
 
 type (
 	// SingleFlight 允许相同key的调用共享调用结果。
@@ -69,7 +73,14 @@ func (g *flightGroup) createCall(key string) (c *call, done bool) {
 }
 
 func (g *flightGroup) makeCall(c *call, key string, fn func() (any, error)) {
+	returned := false
 	defer func() {
+		if !returned {
+			// fn 发生 panic 或 Goexit：它没有产生任何结果，等待者不能把零值当作成功的结果；
+			// panic 本身继续向执行者的调用方传播。
+			c.err = errCallAborted
+		}
+
 		g.lock.Lock()
 		delete(g.calls, key)
 		g.lock.Unlock()
@@ -77,4 +88,5 @@ func (g *flightGroup) makeCall(c *call, key string, fn func() (any, error)) {
 	}()
 
 	c.val, c.err = fn()
+	returned = true
 }
